@@ -33,6 +33,10 @@ def split_matrix_svd(A, q0, q1, tol):
     assert len(q1) == A.shape[1]
     assert is_qsparse(A, [q0, -q1])
 
+    # factors are in general not integer-valued
+    if np.issubdtype(A.dtype, np.integer):
+        A = A.astype(float)
+
     # find common quantum numbers
     qis = np.intersect1d(q0, q1)
 
@@ -136,6 +140,10 @@ def qr(A, q0, q1):
     assert len(q0) == A.shape[0]
     assert len(q1) == A.shape[1]
     assert is_qsparse(A, [q0, -q1])
+
+    # factors are in general not integer-valued
+    if np.issubdtype(A.dtype, np.integer):
+        A = A.astype(float)
 
     # find common quantum numbers
     qis = np.intersect1d(q0, q1)
